@@ -105,9 +105,11 @@ def run(ctx) -> None:
             pos = [ast.unparse(x) for x in c.args]
             rep.check("C19.R1", pos == [f"{dep_v}.cls", f"{dep_v}.name"], R, c, "lookup arguments are (annotated type, marker name)", f"lookup arguments are ({', '.join(pos)})")
             kw = {k.arg: k.value for k in c.keywords}
+            from .discharge import controlling_conditions
+
             cn = cfg.nodes_containing(c)
-            cts = controlling_tests(cfg, cn[0]) if cn else []
-            opt_tests = [(t, lab) for t, lab in cts if ast.unparse(t.ast) == f"{dep_v}.optional"]
+            cts = controlling_conditions(cfg, cn[0]) if cn else []
+            opt_tests = [(e_, "t" if truth else "f") for e_, truth, _t in cts if ast.unparse(e_) == f"{dep_v}.optional"]
             if "optional" in kw:
                 ok = is_const(kw["optional"], True) and any(lab == "t" for t, lab in opt_tests)
                 ok = ok or (ast.unparse(kw["optional"]) == f"{dep_v}.optional")
@@ -209,26 +211,34 @@ def run(ctx) -> None:
         rets = [n for n in icfg.live_nodes() if n.kind == "stmt" and isinstance(n.ast, ast.Return) and isinstance(n.ast.value, ast.Name)]
         for r in rets:
             nm = r.ast.value.id
-            cts = controlling_tests(icfg, r)
-            co = [(t, lab) for t, lab in cts if "iscoroutinefunction" in ast.unparse(t.ast)]
+            from .discharge import controlling_conditions
+
+            co = [(e_, "t" if truth else "f") for e_, truth, _t in controlling_conditions(icfg, r) if "iscoroutinefunction" in ast.unparse(e_)]
             if nm == WA.name:
                 rep.check("C19.R2", any(lab == "t" for t, lab in co), inject, r.ast, "coroutine functions get the async wrapper", "the async wrapper is not selected by iscoroutinefunction(func)")
             elif nm == WS.name:
                 rep.check("C19.R2", any(lab == "f" for t, lab in co), inject, r.ast, "plain functions get the sync wrapper", "the sync wrapper is not selected for plain functions")
         co_tests = [t for t in icfg.live_nodes() if t.kind == "test" and "iscoroutinefunction" in ast.unparse(t.ast)]
-        rep.check("C19.R2", bool(co_tests) and ast.unparse(co_tests[0].ast) == f"iscoroutinefunction({inject.params[0]})", inject, co_tests[0].ast if co_tests else inject.node, "the choice is made on the decorated function", "the wrapper choice does not test the decorated function")
+        def _strip_not(e):
+            while isinstance(e, ast.UnaryOp) and isinstance(e.op, ast.Not):
+                e = e.operand
+            return e
+
+        rep.check("C19.R2", bool(co_tests) and ast.unparse(_strip_not(co_tests[0].ast)) == f"iscoroutinefunction({inject.params[0]})", inject, co_tests[0].ast if co_tests else inject.node, "the choice is made on the decorated function", "the wrapper choice does not test the decorated function")
 
     # ------------------------------------------------------------------ R3 decoration-time validation
     raises = [n for n in icfg.live_nodes() if n.kind == "stmt" and isinstance(n.ast, ast.Raise) and "TypeError" in ast.unparse(n.ast)]
     kinds = {"posonly": False, "annotation": False, "uncalled": False}
     for r in raises:
-        for t, lab in controlling_tests(icfg, r):
-            txt = ast.unparse(t.ast)
-            if "POSITIONAL_ONLY" in txt and lab == "t":
+        from .discharge import controlling_conditions
+
+        for e_, truth, _t in controlling_conditions(icfg, r):
+            txt = ast.unparse(e_)
+            if "POSITIONAL_ONLY" in txt and truth:
                 kinds["posonly"] = True
-            if "annotation" in txt and "empty" in txt and lab == "t":
+            if "annotation" in txt and "empty" in txt and truth:
                 kinds["annotation"] = True
-            if f"is {resource.name}" in txt and lab == "t":
+            if f"is {resource.name}" in txt and truth:
                 kinds["uncalled"] = True
     msgs = {"posonly": "a positional-only marked parameter", "annotation": "a marked parameter without annotation", "uncalled": "an uncalled `resource` default"}
     for k, okk in kinds.items():
